@@ -569,11 +569,13 @@ Definition OP_MAKE_ADAPTER_SIG_PRIVATE : prog unit :=
 Definition OP_CHECK_ADAPTER_SIG : prog unit :=
   X <- get ;; T <- get ;; m <- get ;; R <- get ;; sa <- get ;;
   saG <- prim1 PBaseMult [sa] ;;
+  (* sa must be canonical: crypto_core_ed25519_scalar_reduce(sa + 32 zero bytes) == sa (D22, fixed) *)
+  sar <- prim1 PReduce [sa ++ repeat x00 32] ;;
   RT <- aggregate_points [R; T] ;;
   h <- H_small [RT; X; m] ;; ca <- clamp_scalar h false ;;
   caX <- prim1 PMult [ca; X] ;;
   RcaX <- aggregate_points [R; caX] ;;
-  put_bool (bytes_eqb saG RcaX).
+  put_bool (bytes_eqb sar sa && bytes_eqb saG RcaX).
 
 Definition OP_DECRYPT_ADAPTER_SIG : prog unit :=
   cfg <- config_ ;;
